@@ -118,7 +118,7 @@ func ZZ_C05_BeginBlock() {
 }
 
 func zzDebug(env *keeper.ZZEnv, k keeper.Keeper, ctx sdk.Context, chain types.ChainID) {
-	if os.Getenv("ZZ_DEBUG") == "" {
+	if vrt.Symbolic() || os.Getenv("ZZ_DEBUG") == "" {
 		return
 	}
 	fmt.Println("DEBUG lastObserved", k.GetLastObservedEventNonce(ctx, chain), "batches", len(keeper.ZZBatchesOf(k, ctx, chain)),
